@@ -164,7 +164,7 @@ def _root_configs(tier):
 
 
 @harness("root_development", modules=["aquacrop.solution.root_development"], props=["C05", "C12", "C16", "C19"], configs=_root_configs,
-         timeout_ms=10000, goals=["roots-deepen", "table-limits-roots"])
+         timeout_ms=20000, goals=["roots-deepen", "table-limits-roots"])
 def h_root(ctx, cfg):
     crop = copy.copy(season_crop(cfg["crop"]))
     layers = ["SandyLoam", "SandyLoam", "Clay"] if cfg["prof"] == "uniform" else ["SandyLoam", "TightClay", "TightClay"]
